@@ -662,6 +662,9 @@ def finish_check(mod, mod_id: str, prop: str, seed: int, tier: str, nw: int,
     out_lines = []
     replay_paths = []
     mbudget = 40.0 if tier == "quick" else 120.0
+    if os.environ.get("VERIF_MINIMISE_S"):
+        # (sweeps over many changed trees only need the verdict)
+        mbudget = float(os.environ["VERIF_MINIMISE_S"])
     for sig, vio in list(fresh.items())[:5]:
         small = minimise(mod, vio, mbudget / max(1, min(5, len(fresh))),
                          b["case_timeout"])
